@@ -772,8 +772,11 @@ char *search_include_paths(char *filename) {
 static char *search_include_next(char *filename) {
   for (; include_next_idx < include_paths.len; include_next_idx++) {
     char *path = format("%s/%s", include_paths.data[include_next_idx], filename);
-    if (file_exists(path))
+    if (file_exists(path)) {
+      // A #include_next in the file just found continues after it.
+      include_next_idx++;
       return path;
+    }
   }
   return NULL;
 }
